@@ -1,7 +1,7 @@
-(* Property C14 -- what the site tables of Gen/GenCtxSites.v (go2v/ctxsites.go) have to look
+(* Property C14 -- what the site tables of Gen/GenCtxFlow.v (go2v/ctxflow.go) have to look
    like.  Code-independent vocabulary first, then the rows the hand models were written against.
 
-   (A) ctx_sites: which context the retrying clients hand down.
+   (A) ctxflow_sites: which context the retrying clients hand down.
        A row is (package, function, context parameter, callee, argument, guard, origin); origin
        0 = the function's own context parameter, 1 = derived from it (context.WithTimeout(p, ..),
        Wrap(p), ..), 2 = a context of an ENCLOSING function captured by a function literal that
